@@ -353,17 +353,46 @@ def _kills(node: Node, label: Any) -> Tuple[List[str], bool]:
     return killed, False
 
 
+def _const_test(e: ast.AST, consts: Dict[str, Any]) -> Optional[bool]:
+    """truth value of a test over locals with known constant values, else None"""
+    if isinstance(e, ast.Name) and e.id in consts:
+        return bool(consts[e.id])
+    if isinstance(e, ast.Compare) and len(e.ops) == 1 and isinstance(e.left, ast.Name) and e.left.id in consts \
+            and isinstance(e.comparators[0], ast.Constant):
+        a, b = consts[e.left.id], e.comparators[0].value
+        op = e.ops[0]
+        if isinstance(op, ast.Is):
+            return a is b
+        if isinstance(op, ast.IsNot):
+            return a is not b
+        if isinstance(op, ast.Eq):
+            return a == b
+        if isinstance(op, ast.NotEq):
+            return a != b
+    return None
+
+
 def feasible(path: Path) -> bool:
+    from .cfg import atom_key
     known: Dict[str, Tuple[bool, List[str]]] = {}
+    consts: Dict[str, Any] = {}
     for nid, lab in path.steps:
         node = path.cfg.nodes[nid]
         if node.kind == 'test' and lab in (True, False):
-            from .cfg import atom_key
+            cv = _const_test(node.ast, consts)  # type: ignore[arg-type]
+            if cv is not None and cv != lab:
+                return False
             key, pol = atom_key(node.ast, lab)  # type: ignore[arg-type]
             if _atom_pure(node.ast):  # type: ignore[arg-type]
                 if key in known and known[key][0] != pol:
                     return False
                 known[key] = (pol, _chains_in(node.ast))  # type: ignore[arg-type]
+        # constant propagation for locals
+        for name, val in defs_of_step(node, lab).items():
+            if isinstance(val, ast.Constant):
+                consts[name] = val.value
+            else:
+                consts.pop(name, None)
         killed, everything = _kills(node, lab)
         if everything:
             known.clear()
